@@ -8,8 +8,10 @@
 
 pub mod codec;
 pub mod ctx;
+pub mod gen;
 pub mod monitor;
 pub mod props;
+pub mod reference;
 pub mod rng;
 
 use ctx::{Ctx, Tier};
